@@ -35,6 +35,7 @@ type authCfg struct {
 	opts      stackOpts
 	ingresses [][3]string // scheme, host, path
 	acrDef    string
+	acrSup    []string // nil = acrSupported
 	locDef    string
 	resource  string
 	strict    bool
@@ -56,8 +57,12 @@ func (c authCfg) line() string {
 		}
 		return strings.Join(o, ",")
 	}
+	sup := acrSupported
+	if c.acrSup != nil {
+		sup = c.acrSup
+	}
 	return fmt.Sprintf("1 %s %s %s %s %s %s %s %s %s %d %d %d %d %d", strings.Join(ings, ";"), hx("client-id"), hx(idpIssuer),
-		hx(c.acrDef), hl(acrSupported), hx(c.locDef), hl(locSupported), hx("openid some-scope"), hx(c.resource),
+		hx(c.acrDef), hl(sup), hx(c.locDef), hl(locSupported), hx("openid some-scope"), hx(c.resource),
 		bi(c.opts.par), bi(c.opts.useSecret), bi(c.opts.issParam), bi(c.strict), bi(c.segPrefix))
 }
 
@@ -362,6 +367,7 @@ func newAuthRun(c authCfg, win, wimpl, wobs *bufio.Writer) (*authRun, error) {
 	}
 	c.opts.ingresses = ings
 	c.opts.acr = c.acrDef
+	c.opts.acrSupported = c.acrSup
 	c.opts.uiLocales = c.locDef
 	c.opts.resource = c.resource
 	c.opts.redis = false
@@ -462,6 +468,14 @@ func (r *authRun) callbackCase(stateSel, codeSel, issSel, errSel, ckSel int, oth
 		iss = idpIssuer
 	case 2:
 		iss = "http://evil-issuer"
+	case 3:
+		iss = idpIssuer + "/" // near misses: the comparison must be exact
+	case 4:
+		iss = strings.ToUpper(idpIssuer)
+	case 5:
+		iss = idpIssuer + ".evil"
+	case 6:
+		iss = idpIssuer[:len(idpIssuer)-1]
 	}
 	if iss != "" {
 		q.Set("iss", iss)
@@ -620,6 +634,9 @@ func runAuth(args []string) error {
 			for _, acrDef := range []string{"", "idporten-loa-high", "Level4", "unsupported-acr"} {
 				for _, variant := range []int{0, 1, 2, 3} {
 					c := authCfg{acrDef: acrDef, strict: *strict, segPrefix: *seg}
+					// what the provider advertises: both new-style values; only one of them (the translation of a legacy level
+					// may then be unsupported); a provider still on the legacy names
+					c.acrSup = [][]string{nil, {"idporten-loa-substantial"}, {"Level3", "Level4", "other-acr"}, {"idporten-loa-high", "other-acr"}}[(variant+len(ings)+len(acrDef))%4]
 					c.opts.par = variant&1 == 1
 					c.opts.useSecret = variant&2 == 2
 					c.locDef = pick(rng, "", "nb")
@@ -693,9 +710,12 @@ func runAuth(args []string) error {
 					}
 					for st := 0; st <= 5; st++ {
 						for cd := 0; cd <= 3; cd++ {
-							for is := 0; is <= 2; is++ {
+							for is := 0; is <= 6; is++ {
 								for er := 0; er <= 2; er++ {
 									for ck := 0; ck <= 8; ck++ {
+										if is > 2 && *tier != "thorough" && (!issSup || er != 0) {
+											continue // near-miss issuers: quick tier only where the iss parameter is checked and no error parameter masks it
+										}
 										if !secret && (st+cd+is+er+ck)%3 != 0 && *tier != "thorough" {
 											continue // the private-key variant samples a third in the quick tier
 										}
